@@ -363,3 +363,244 @@ theorem wside_batchRead (c : Cfg) (p : Proc) (i : Inst) (t : Topic) (m : Nat) (c
     · rw [wside_statefulCommit]; exact h
 
 end WalrusVerif.Eng
+
+namespace WalrusVerif.Eng
+open WalrusVerif
+
+/-! ### the planning phase of a batch of one-unit entries -/
+
+/-- where the entries of a batch to one topic land: (block offset, in-block offset, payload) for each, and the
+writer's block offset, in-block offset and the allocator offset afterwards -/
+def placeAll (c : Cfg) : List Pay → Nat → Nat → Nat → List (Nat × Nat × Pay) × Nat × Nat × Nat
+  | [], bo, off, aoff => ([], bo, off, aoff)
+  | p :: r, bo, off, aoff =>
+    if off + (c.metaSz + p.len) ≤ c.blockSize then
+      ((bo, off, p) :: (placeAll c r bo (off + (c.metaSz + p.len)) aoff).1, (placeAll c r bo (off + (c.metaSz + p.len)) aoff).2)
+    else
+      ((aoff, 0, p) :: (placeAll c r aoff (c.metaSz + p.len) (aoff + c.blockSize)).1,
+        (placeAll c r aoff (c.metaSz + p.len) (aoff + c.blockSize)).2)
+
+theorem plan_friendly (c : Cfg) (t : Topic) (hm : 0 < c.metaSz) (hb0 : 0 < c.blockSize) (hmax : c.blockSize ≤ c.maxAlloc)
+    (ps : List Pay) :
+    ∀ (p : Proc) (i : Inst) (b : Blk) (off : Nat) (acc : List (Blk × Nat × Pay)),
+      b.limit = c.blockSize → off ≤ c.blockSize → b.file = i.allocFile →
+      (∀ q ∈ ps, c.metaSz + q.len ≤ c.blockSize) → i.allocOff + ps.length * c.blockSize ≤ c.fileSize →
+      ∃ p' i' nb off' items, planBatch c t ps p i b off acc = (p', i', nb, some (off', acc.reverse ++ items)) ∧
+        p'.files = p.files ∧ i'.allocFile = i.allocFile ∧ i'.writers = i.writers ∧
+        nb.limit = c.blockSize ∧ nb.file = i.allocFile ∧
+        (nb.off, off', i'.allocOff) = (placeAll c ps b.off off i.allocOff).2 ∧
+        items.map (fun x => (x.1.off, x.2.1, x.2.2)) = (placeAll c ps b.off off i.allocOff).1 ∧
+        (∀ x ∈ items, x.1.file = i.allocFile) := by
+  induction ps with
+  | nil =>
+    intro p i b off acc hl _ hf _ _
+    refine ⟨p, i, b, off, [], by simp [planBatch], rfl, rfl, rfl, hl, hf, ?_, ?_, by simp⟩ <;> simp [placeAll]
+  | cons q r ih =>
+    intro p i b off acc hl hoff hf hfit hroom
+    have hq := hfit q List.mem_cons_self
+    have hr : ∀ x ∈ r, c.metaSz + x.len ≤ c.blockSize := fun x hx => hfit x (List.mem_cons_of_mem _ hx)
+    simp only [List.length_cons, Nat.succ_mul] at hroom
+    unfold planBatch placeAll
+    by_cases hfits : off + (c.metaSz + q.len) ≤ c.blockSize
+    · have h1 : b.limit - off ≥ c.metaSz + q.len := by rw [hl]; omega
+      simp only [h1, hfits, if_true]
+      obtain ⟨p', i', nb, off', items, he, h2, h3, h4, h5, h6, h7, h8, h9⟩ :=
+        ih p i b (off + (c.metaSz + q.len)) ((b, off, q) :: acc) hl hfits hf hr (by omega)
+      refine ⟨p', i', nb, off', (b, off, q) :: items, ?_, h2, h3, h4, h5, h6, h7, ?_, ?_⟩
+      · rw [he]; simp
+      · simp only [List.map_cons]; rw [h8]
+      · intro x hx; rw [List.mem_cons] at hx; rcases hx with hx | hx
+        · subst hx; exact hf
+        · exact h9 x hx
+    · have h1 : ¬ (b.limit - off ≥ c.metaSz + q.len) := by rw [hl]; omega
+      simp only [h1, hfits, if_false]
+      unfold sealBlock
+      simp only
+      have hfields : (appendBlockToChain i t { b with used := off }).allocOff = i.allocOff ∧
+          (appendBlockToChain i t { b with used := off }).allocId = i.allocId ∧
+          (appendBlockToChain i t { b with used := off }).allocFile = i.allocFile ∧
+          (appendBlockToChain i t { b with used := off }).writers = i.writers := by
+        unfold appendBlockToChain; simp only; refine ⟨?_, ?_, ?_, ?_⟩ <;> first | rfl | trivial
+      have hmaxeq : max (c.metaSz + q.len) c.blockSize = c.blockSize := Nat.max_eq_right hq
+      rw [hmaxeq]
+      obtain ⟨p2, ha, hpf⟩ := allocBlock_unit c { p with trk := p.trk.setBlockUnlocked b.id }
+        (appendBlockToChain i t { b with used := off }) c.blockSize hb0 (Nat.le_refl _) hmax hb0
+        (by rw [hfields.1]; omega)
+      rw [ha]
+      simp only
+      obtain ⟨p', i', nb, off', items, he, h2, h3, h4, h5, h6, h7, h8, h9⟩ :=
+        ih p2 { (appendBlockToChain i t { b with used := off }) with
+                  allocOff := (appendBlockToChain i t { b with used := off }).allocOff + c.blockSize,
+                  allocId := (appendBlockToChain i t { b with used := off }).allocId + 1 }
+          (nextBlk c (appendBlockToChain i t { b with used := off })) (c.metaSz + q.len)
+          ((nextBlk c (appendBlockToChain i t { b with used := off }), 0, q) :: acc)
+          rfl hq (by simp only [nextBlk]) hr (by simp only [hfields.1]; omega)
+      simp only [nextBlk, hfields.1, hfields.2.2.1, hfields.2.2.2] at h3 h4 h6 h7 h8 h9
+      refine ⟨p', i', nb, off', (nextBlk c (appendBlockToChain i t { b with used := off }), 0, q) :: items,
+        ?_, by rw [h2, hpf], h3, h4, h5, h6, h7, ?_, ?_⟩
+      · rw [he]; simp
+      · simp only [List.map_cons, nextBlk, hfields.1]; rw [h8]
+      · intro x hx; rw [List.mem_cons] at hx; rcases hx with hx | hx
+        · subst hx; simp only [nextBlk, hfields.2.2.1]
+        · exact h9 x hx
+
+end WalrusVerif.Eng
+
+namespace WalrusVerif.Eng
+open WalrusVerif
+
+/-- the cells after writing the placed entries of topic `t`, in order -/
+def cellsAfter (c : Cfg) (t : Topic) (cells : List Cell) (places : List (Nat × Nat × Pay)) : List Cell :=
+  places.foldl (fun cs x => clobber c cs (x.1 + x.2.1) (x.1 + x.2.1 + c.metaSz + x.2.2.len) ++ [⟨x.1 + x.2.1, t, x.2.2⟩]) cells
+
+theorem writeCell_length' (c : Cfg) (files : List FileSt) (b : Blk) (inOff : Nat) (t : Topic) (pay : Pay) :
+    (writeCell c files b inOff t pay).length = files.length := by
+  unfold writeCell updFileCells; simp
+
+theorem fileCells_plan (c : Cfg) (t : Topic) (f : Nat) (plan : List (Blk × Nat × Pay)) :
+    ∀ (files : List FileSt), f < files.length → (∀ x ∈ plan, x.1.file = f) →
+      fileCells (plan.foldl (fun fs (x : Blk × Nat × Pay) => writeCell c fs x.1 x.2.1 t x.2.2) files) f =
+        cellsAfter c t (fileCells files f) (plan.map fun x => (x.1.off, x.2.1, x.2.2)) ∧
+      (plan.foldl (fun fs (x : Blk × Nat × Pay) => writeCell c fs x.1 x.2.1 t x.2.2) files).length = files.length := by
+  induction plan with
+  | nil => intro files _ _; exact ⟨rfl, rfl⟩
+  | cons x r ih =>
+    intro files hf hall
+    simp only [List.foldl_cons, List.map_cons]
+    have hx := hall x List.mem_cons_self
+    obtain ⟨h1, h2⟩ := ih (writeCell c files x.1 x.2.1 t x.2.2) (by rw [writeCell_length']; exact hf)
+      (fun y hy => hall y (List.mem_cons_of_mem _ hy))
+    refine ⟨?_, by rw [h2, writeCell_length']⟩
+    rw [h1, fileCells_writeCell]
+    simp only [hx, hf, and_self, if_true]
+    unfold cellsAfter
+    simp only [List.foldl_cons]
+
+/-- the layout-relevant part of a writer -/
+def wproj (w : Writer) : Nat × Nat × Nat × Nat × Bool := (w.blk.file, w.blk.off, w.blk.limit, w.off, w.batching)
+
+/-- what a friendly batch of several one-unit entries does, as far as the layout is concerned: the entries land
+where `placeAll` says, starting from the writer's position (or from a fresh block when the topic has no writer) -/
+structure BatchEffect (c : Cfg) (p : Proc) (i : Inst) (t : Topic) (ps : List Pay) (p' : Proc) (i' : Inst) : Prop where
+  allocFile : i'.allocFile = i.allocFile
+  len : p'.files.length = p.files.length
+  eff : ∃ bo off aoff0,
+    ((i.writers.get? t = none ∧ bo = i.allocOff ∧ off = 0 ∧ aoff0 = i.allocOff + c.blockSize) ∨
+      (∃ w, i.writers.get? t = some w ∧ bo = w.blk.off ∧ off = w.off ∧ aoff0 = i.allocOff)) ∧
+    fileCells p'.files i.allocFile = cellsAfter c t (fileCells p.files i.allocFile) (placeAll c ps bo off aoff0).1 ∧
+    i'.allocOff = (placeAll c ps bo off aoff0).2.2.2 ∧
+    (∀ t', (i'.writers.get? t').map wproj =
+      if t = t' then some (i.allocFile, (placeAll c ps bo off aoff0).2.1, c.blockSize, (placeAll c ps bo off aoff0).2.2.1, false)
+      else (i.writers.get? t').map wproj)
+
+theorem batch_friendly (c : Cfg) (p : Proc) (i : Inst) (t : Topic) (ps : List Pay)
+    (hm : 0 < c.metaSz) (hb0 : 0 < c.blockSize) (hmax : c.blockSize ≤ c.maxAlloc)
+    (hlong : t.long = false) (hne : ps ≠ []) (hfit : ∀ q ∈ ps, c.metaSz + q.len ≤ c.blockSize)
+    (hcap : ps.length ≤ c.cap) (hbytes : (ps.map fun x => c.metaSz + x.len).sum ≤ c.maxBatchBytes)
+    (hroom : i.allocOff + (ps.length + 1) * c.blockSize ≤ c.fileSize) (hin : i.allocFile < p.files.length)
+    (hw : ∀ w, i.writers.get? t = some w →
+      w.batching = false ∧ w.blk.limit = c.blockSize ∧ w.blk.file = i.allocFile ∧ w.off ≤ c.blockSize) :
+    (batchAppendForTopic c p i t ps).2.2 = .ok ∧
+    BatchEffect c p i t ps (batchAppendForTopic c p i t ps).1 (batchAppendForTopic c p i t ps).2.1 := by
+  have hnf : ∀ n, batchFails none n = false := fun _ => rfl
+  obtain ⟨mw, moff, mfile, mid⟩ := markClean_fields i t false
+  have hpre : (decide (ps.length ≤ c.cap) && decide ((ps.map fun x => c.metaSz + x.len).sum ≤ c.maxBatchBytes) &&
+      ps.any (fun x => decide (c.metaSz + x.len > c.maxAlloc))) = false := by
+    rw [Bool.and_eq_false_iff]; right
+    rw [List.any_eq_false]
+    intro x hx; have := hfit x hx; simp; omega
+  have h1 : ¬ (ps.length > c.cap) := by omega
+  have h2 : ¬ ((ps.map fun x => c.metaSz + x.len).sum > c.maxBatchBytes) := by omega
+  have h3 : ps.isEmpty = false := by cases ps <;> simp_all
+  have hroom' : i.allocOff + c.blockSize + ps.length * c.blockSize ≤ c.fileSize := by
+    rw [Nat.succ_mul] at hroom; omega
+  unfold batchAppendForTopic
+  simp only
+  unfold getOrCreateWriter
+  rw [mw]
+  cases hwr : i.writers.get? t with
+  | none =>
+    simp only
+    unfold getNextAvailableBlock
+    have h0 : ¬ ((markClean i t false).allocOff ≥ c.fileSize) := by rw [moff]; omega
+    simp only [h0, if_false]
+    unfold writerBatchWrite
+    rw [hpre]
+    simp only [Bool.false_eq_true, if_false]
+    unfold writerBatchWriteCore
+    simp only [h1, h2, h3, if_false, Bool.false_eq_true, hlong]
+    obtain ⟨p', i', nb, off', items, he, hf1, hf2, hf3, hf4, hf5, hf6, hf7, hf8⟩ := plan_friendly c t hm hb0 hmax ps
+      { p with trk := (((p.trk.registerBlock (markClean i t false).allocId (markClean i t false).allocFile).registerFileIfAbsent
+          (markClean i t false).allocFile).addBlockToFileState (markClean i t false).allocFile).setBlockLocked (markClean i t false).allocId }
+      { (markClean i t false) with
+          allocOff := (markClean i t false).allocOff + c.blockSize, allocId := (markClean i t false).allocId + 1,
+          writers := (markClean i t false).writers.insert t
+            { blk := { id := (markClean i t false).allocId, file := (markClean i t false).allocFile,
+                       off := (markClean i t false).allocOff, limit := c.blockSize, used := 0 }, off := 0 } }
+      { id := (markClean i t false).allocId, file := (markClean i t false).allocFile,
+        off := (markClean i t false).allocOff, limit := c.blockSize, used := 0 } 0 []
+      rfl (Nat.zero_le _) rfl hfit (by simp only [moff]; exact hroom')
+    rw [he]
+    simp only [List.reverse_nil, List.nil_append, hnf, Bool.false_eq_true, if_false]
+    simp only [moff, mfile] at hf2 hf5 hf6 hf7 hf8
+    obtain ⟨hc1, hc2⟩ := fileCells_plan c t i.allocFile items p'.files (by rw [hf1]; exact hin) hf8
+    refine ⟨trivial, ?_, ?_, ?_⟩
+    · exact (incCount_fields _ _ _).2.2.1.trans hf2
+    · show (List.foldl _ p'.files items).length = p.files.length
+      rw [hc2, hf1]
+    · refine ⟨i.allocOff, 0, i.allocOff + c.blockSize, Or.inl ⟨hwr, rfl, rfl, rfl⟩, ?_, ?_, ?_⟩
+      · show fileCells (List.foldl _ p'.files items) i.allocFile = _
+        rw [hc1, hf7, hf1]
+      · rw [(incCount_fields _ _ _).2.1]
+        have := congrArg (fun x => x.2.2) hf6
+        simp only at this
+        exact this
+      · intro t'
+        rw [(incCount_fields _ _ _).1]
+        simp only
+        rw [AMap.get?_insert, hf3]
+        by_cases ht : t = t'
+        · have e1 := congrArg (fun x => x.1) hf6
+          have e2 := congrArg (fun x => x.2.1) hf6
+          simp only at e1 e2
+          simp [ht, wproj, hf4, hf5, e1, e2]
+        · simp only [ht, if_false]
+          rw [AMap.get?_insert_ne _ _ _ _ ht, mw]
+  | some w =>
+    obtain ⟨hwb, hwl, hwf, hwo⟩ := hw w hwr
+    simp only
+    unfold writerBatchWrite
+    rw [hpre]
+    simp only [Bool.false_eq_true, if_false]
+    unfold writerBatchWriteCore
+    simp only [h1, h2, h3, if_false, Bool.false_eq_true, hlong, hwb]
+    obtain ⟨p', i', nb, off', items, he, hf1, hf2, hf3, hf4, hf5, hf6, hf7, hf8⟩ := plan_friendly c t hm hb0 hmax ps
+      p (markClean i t false) w.blk w.off [] hwl hwo (by rw [mfile]; exact hwf) hfit
+      (by rw [moff]; rw [Nat.succ_mul] at hroom; omega)
+    rw [he]
+    simp only [List.reverse_nil, List.nil_append, hnf, Bool.false_eq_true, if_false]
+    simp only [moff, mfile] at hf2 hf5 hf6 hf7 hf8
+    obtain ⟨hc1, hc2⟩ := fileCells_plan c t i.allocFile items p'.files (by rw [hf1]; exact hin) hf8
+    refine ⟨trivial, ?_, ?_, ?_⟩
+    · exact (incCount_fields _ _ _).2.2.1.trans hf2
+    · show (List.foldl _ p'.files items).length = p.files.length
+      rw [hc2, hf1]
+    · refine ⟨w.blk.off, w.off, i.allocOff, Or.inr ⟨w, hwr, rfl, rfl, rfl⟩, ?_, ?_, ?_⟩
+      · show fileCells (List.foldl _ p'.files items) i.allocFile = _
+        rw [hc1, hf7, hf1]
+      · rw [(incCount_fields _ _ _).2.1]
+        have := congrArg (fun x => x.2.2) hf6
+        simp only at this
+        exact this
+      · intro t'
+        rw [(incCount_fields _ _ _).1]
+        simp only
+        rw [AMap.get?_insert, hf3, mw]
+        by_cases ht : t = t'
+        · have e1 := congrArg (fun x => x.1) hf6
+          have e2 := congrArg (fun x => x.2.1) hf6
+          simp only at e1 e2
+          simp [ht, wproj, hf4, hf5, e1, e2, hwb]
+        · simp only [ht, if_false]
+
+end WalrusVerif.Eng
